@@ -516,6 +516,16 @@ func (d *decoderState) ReadToken() (Token, error) {
 		}
 	}
 
+	// A JSON object name must be a string. Report that before lexing
+	// a literal or number so that the error offset is where the grammar
+	// is first violated rather than within a possibly malformed token.
+	if d.Tokens.Last.NeedObjectName() {
+		switch next {
+		case 'n', 'f', 't', '0':
+			return Token{}, wrapSyntacticError(d, ErrNonStringName, pos, +1)
+		}
+	}
+
 	// Handle the next token.
 	var n int
 	switch next {
